@@ -1,0 +1,548 @@
+//go:build verif
+
+// Contracts for package seccomp, read by /verif/govc (comment-only file: nothing is compiled).
+// Syntax: DESIGN.md section 4.
+
+package seccomp
+
+//@ func getSyscall(syscalls []SyscallWithConditions, syscall uint32) *SyscallWithConditions   properties C03 C07
+//@   returns_elem syscalls
+//@   ensures @found result != nil ==> (syscalls[idx(result)].Num == syscall && forall(j, 0, idx(result), syscalls[j].Num != syscall))
+//@   ensures @absent result == nil ==> forall(j, 0, len(syscalls), syscalls[j].Num != syscall)
+//@   loop 1 binder k
+//@     invariant @none_before forall(j, 0, k, syscalls[j].Num != syscall)
+
+// ---------------------------------------------------------------------------
+// Layer B: builder primitives (assembler.go). Ghost field G is the state of the
+// single-pass forward interpreter (spec/cbpf.smt2) on the ghost event `ev`;
+// it is advanced by ghost statements that read what the code actually appended.
+// ---------------------------------------------------------------------------
+
+//@ type Program
+//@   field G GState
+//@   field R (Array (_ BitVec 32) Bool)
+
+// Assumption (listed in evidence): label counters stay below 2^62 — reaching it needs 2^62 NewLabel calls.
+//@ type Label
+//@   invariant @label_range 0 - 4611686018427387904 < self && self < 4611686018427387904
+
+//@ macro fresh(p) = freshAbove(p.G, p.nextLabel)
+// C05 builder invariant: instructions emitted so far are of permitted kinds, returns carry values recorded in the ghost set R
+//@ macro ok(p) = progOK(p.instructions, p.R)
+
+//@ func NewProgram() Program   properties C01 C03 C05 C06
+//@   ensures @empty len(result.instructions) == 0 && len(result.jumps) == 0 && result.nextLabel == 1
+//@   ensures @labels nonnil(result.labels) && card(result.labels) == 0
+
+//@ func (p *Program) NewLabel() Label   properties C01 C02 C03 C06
+//@   requires p != nil
+//@   modifies p
+//@   ensures @next result == old(p.nextLabel) + 1 && p.nextLabel == result
+//@   ensures @frame p.G == old(p.G) && p.instructions == old(p.instructions) && p.jumps == old(p.jumps) && p.labels == old(p.labels)
+//@   ensures @fresh fresh(old(p)) ==> fresh(p) && !g_taken(p.G)[result]
+//@   ensures @ok {C05} p.R == old(p.R)
+
+//@ func (p *Program) currentIndex() Index   properties C06
+//@   requires p != nil
+//@   ensures result == len(p.instructions)
+
+//@ func (p *Program) JmpIf(cond bpf.JumpTest, val uint32, trueLabel Label, falseLabel Label)   properties C01 C02 C03 C05 C06
+//@   requires p != nil
+//@   modifies p
+//@   ghost p.G = stepJif(p.G, unbox(p.instructions[len(p.instructions)-1], bpf.JumpIf).Cond, unbox(p.instructions[len(p.instructions)-1], bpf.JumpIf).Val, p.jumps[len(p.jumps)-1].trueLabel, p.jumps[len(p.jumps)-1].falseLabel) at exit
+//@   ensures @sem p.G == stepJif(old(p.G), cond, val, trueLabel, falseLabel)
+//@   ensures @insn len(p.instructions) == len(old(p.instructions)) + 1 && istype(p.instructions[len(p.instructions)-1], bpf.JumpIf)
+//@   ensures @frame p.nextLabel == old(p.nextLabel) && p.labels == old(p.labels)
+//@   ensures @fresh fresh(old(p)) && trueLabel <= old(p.nextLabel) && falseLabel <= old(p.nextLabel) ==> fresh(p)
+//@   ensures @ok {C05} p.R == old(p.R) && (ok(old(p)) && 0 <= cond && cond <= 7 ==> ok(p))
+
+//@ func (p *Program) SetLabel(label Label)   properties C01 C02 C03 C06
+//@   requires p != nil && nonnil(p.labels)
+//@   modifies p
+//@   ghost p.G = stepMark(p.G, label) at exit
+//@   ensures @sem p.G == stepMark(old(p.G), label)
+//@   ensures @frame p.nextLabel == old(p.nextLabel) && p.instructions == old(p.instructions) && p.jumps == old(p.jumps) && nonnil(p.labels)
+//@   ensures @fresh fresh(old(p)) ==> fresh(p)
+//@   ensures @ok {C05} p.R == old(p.R)
+
+//@ func (p *Program) JmpIfTrue(cond bpf.JumpTest, val uint32, trueLabel Label)   properties C01 C02 C03 C05 C06
+//@   requires p != nil && nonnil(p.labels)
+//@   modifies p
+//@   ensures @sem p.G == stepMark(stepJif(old(p.G), cond, val, trueLabel, old(p.nextLabel) + 1), old(p.nextLabel) + 1)
+//@   ensures @frame p.nextLabel == old(p.nextLabel) + 1 && nonnil(p.labels)
+//@   ensures @insn len(p.instructions) == len(old(p.instructions)) + 1
+//@   ensures @fresh fresh(old(p)) && trueLabel <= old(p.nextLabel) ==> fresh(p) && !g_taken(old(p.G))[old(p.nextLabel) + 1]
+//@   ensures @ok {C05} p.R == old(p.R) && (ok(old(p)) && 0 <= cond && cond <= 7 ==> ok(p))
+
+//@ func (p *Program) Ret(action Action)   properties C01 C05 C06
+//@   requires p != nil
+//@   modifies p
+//@   ghost p.G = stepRet(p.G, unbox(p.instructions[len(p.instructions)-1], bpf.RetConstant).Val) at exit
+//@   ensures @sem {C01} p.G == stepRet(old(p.G), enc(action))
+//@   ensures @insn len(p.instructions) == len(old(p.instructions)) + 1 && isRetOf(p.instructions[len(p.instructions)-1], enc(action))
+//@   ensures @frame p.nextLabel == old(p.nextLabel) && p.labels == old(p.labels) && p.jumps == old(p.jumps)
+//@   ensures @fresh fresh(old(p)) ==> fresh(p)
+//@   ghost p.R = addRet(p.R, unbox(p.instructions[len(p.instructions)-1], bpf.RetConstant).Val) at exit
+//@   ensures @ok {C05} p.R == addRet(old(p.R), enc(action)) && (ok(old(p)) ==> ok(p))
+
+//@ func (p *Program) LdHi(arg uint32)   properties C02 C05
+//@   requires p != nil
+//@   requires @arg_le_5 arg <= 5
+//@   modifies p
+//@   ghost p.G = stepLd(p.G, unbox(p.instructions[len(p.instructions)-1], bpf.LoadAbsolute).Off) at exit
+//@   ensures @sem {C02} p.G == mkG(g_live(old(p.G)), ite(g_live(old(p.G)), hi64(ev_args(ev)[arg]), g_A(old(p.G))), g_done(old(p.G)), g_rval(old(p.G)), g_taken(old(p.G)), g_tA(old(p.G)))
+//@   ensures @insn {C05} len(p.instructions) == len(old(p.instructions)) + 1 && validLoad(p.instructions[len(p.instructions)-1])
+//@   ensures @frame p.nextLabel == old(p.nextLabel) && p.labels == old(p.labels) && p.jumps == old(p.jumps)
+//@   ensures @fresh fresh(old(p)) ==> fresh(p)
+//@   ensures @ok {C05} p.R == old(p.R) && (ok(old(p)) ==> ok(p))
+
+//@ func (p *Program) ldSyscallNum()   properties C03 C05
+//@   requires p != nil
+//@   modifies p
+//@   ghost p.G = stepLd(p.G, unbox(p.instructions[len(p.instructions)-1], bpf.LoadAbsolute).Off) at exit
+//@   ensures @sem {C03} p.G == mkG(g_live(old(p.G)), ite(g_live(old(p.G)), ev_nr(ev), g_A(old(p.G))), g_done(old(p.G)), g_rval(old(p.G)), g_taken(old(p.G)), g_tA(old(p.G)))
+//@   ensures @insn {C05} len(p.instructions) == len(old(p.instructions)) + 1 && validLoad(p.instructions[len(p.instructions)-1])
+//@   ensures @frame p.nextLabel == old(p.nextLabel) && p.labels == old(p.labels) && p.jumps == old(p.jumps)
+//@   ensures @fresh fresh(old(p)) ==> fresh(p)
+//@   ensures @ok {C05} p.R == old(p.R) && (ok(old(p)) ==> ok(p))
+
+//@ func (p *Program) LdLo(arg uint32)   properties C02 C05
+//@   requires p != nil
+//@   requires @arg_le_5 arg <= 5
+//@   modifies p
+//@   ghost p.G = stepLd(p.G, unbox(p.instructions[len(p.instructions)-1], bpf.LoadAbsolute).Off) at exit
+//@   ensures @sem {C02} p.G == mkG(g_live(old(p.G)), ite(g_live(old(p.G)), lo64(ev_args(ev)[arg]), g_A(old(p.G))), g_done(old(p.G)), g_rval(old(p.G)), g_taken(old(p.G)), g_tA(old(p.G)))
+//@   ensures @insn {C05} len(p.instructions) == len(old(p.instructions)) + 1 && validLoad(p.instructions[len(p.instructions)-1])
+//@   ensures @frame p.nextLabel == old(p.nextLabel) && p.labels == old(p.labels) && p.jumps == old(p.jumps)
+//@   ensures @fresh fresh(old(p)) ==> fresh(p)
+//@   ensures @ok {C05} p.R == old(p.R) && (ok(old(p)) ==> ok(p))
+
+// nativeEndian is assigned once by init() (not verified: unsafe); it is one of the two orders.
+//@ global nativeEndian immutable
+//@ axiom @endian (nativeEndian == binary.LittleEndian) == le && (nativeEndian == binary.BigEndian) == !le
+
+// ---------------------------------------------------------------------------
+// Layer P: policy compilation (filter.go)
+// ---------------------------------------------------------------------------
+
+// allHold: every condition of the list is satisfied by the ghost event (C02/C03: unsigned 64-bit relations of spec/policy.smt2)
+//@ macro allHoldUpTo(list, n) = forall(q_, 0, n, holds(list[q_], ev))
+// anyList: one of the first k condition lists of entry s is satisfied
+//@ macro anyList(s, k) = exists(j_, 0, k, allHoldUpTo(s.Conditions[j_], len(s.Conditions[j_])))
+//@ macro entryMatches(s) = (ev_nr(ev) == s.Num && (len(s.Conditions) == 0 || anyList(s, len(s.Conditions))))
+// semValid: what C03/C07 assume of a conditional entry (>= 1 condition per list, implemented operations)
+//@ macro semValid(s) = forall(a_, 0, len(s.Conditions), len(s.Conditions[a_]) >= 1 && forall(b_, 0, len(s.Conditions[a_]), knownOp(s.Conditions[a_][b_].Operation)))
+//@ macro argsValid(s) = forall(a_, 0, len(s.Conditions), forall(b_, 0, len(s.Conditions[a_]), s.Conditions[a_][b_].Argument <= 5))
+
+// Quantifier bookkeeping, proved once and instantiated explicitly (so that the compile-path obligations are ground).
+//@ lemma allHoldZero(list []Condition)
+//@   ensures allHoldUpTo(list, 0)
+//@ lemma allHoldStep(list []Condition, i int, c Condition)
+//@   requires 0 <= i && i < len(list) && c == list[i]
+//@   ensures allHoldUpTo(list, i+1) == (allHoldUpTo(list, i) && holds(c, ev))
+//@ lemma anyListZero(s SyscallWithConditions)
+//@   ensures !anyList(s, 0)
+//@ lemma anyListStep(s SyscallWithConditions, k int, list []Condition, n int)
+//@   requires 0 <= k && k < len(s.Conditions) && list == s.Conditions[k] && n == len(list)
+//@   ensures anyList(s, k+1) == (anyList(s, k) || allHoldUpTo(list, n))
+//@ lemma semInst(s SyscallWithConditions, k int, list []Condition, i int, c Condition)
+//@   requires 0 <= k && k < len(s.Conditions) && list == s.Conditions[k] && 0 <= i && i < len(list) && c == list[i]
+//@   ensures semValid(s) ==> len(list) >= 1 && knownOp(c.Operation)
+//@ lemma semInstList(s SyscallWithConditions, k int, list []Condition)
+//@   requires 0 <= k && k < len(s.Conditions) && list == s.Conditions[k]
+//@   ensures semValid(s) ==> len(list) >= 1
+//@ lemma argsInst(s SyscallWithConditions, k int, list []Condition, i int, c Condition)
+//@   requires argsValid(s) && 0 <= k && k < len(s.Conditions) && list == s.Conditions[k] && 0 <= i && i < len(list) && c == list[i]
+//@   ensures c.Argument <= 5
+
+//@ func (s SyscallWithConditions) Assemble(p *Program, action Label)   properties C02 C03 C05 C07
+//@   requires p != nil && nonnil(p.labels)
+//@   requires 1 <= action && action <= p.nextLabel
+//@   requires fresh(p)
+//@   requires @args_valid argsValid(s)
+//@   modifies p
+//@   let G0 = p.G
+//@   let N0 = p.nextLabel
+//@   let hdr = ev_nr(ev) == s.Num
+//@   let pre = g_live(p.G) && g_A(p.G) == ev_nr(ev)
+//@   let sem = semValid(s)
+//@   let n = len(s.Conditions)
+//@   ensures @live {C03} pre && sem ==> g_live(p.G) == !(hdr && (n == 0 || anyList(s, n)))
+//@   ensures @taken_action {C03} pre && sem ==> g_taken(p.G)[action] == (g_taken(G0)[action] || (hdr && (n == 0 || anyList(s, n))))
+//@   ensures @no_leak {C03} pre && sem && g_live(p.G) ==> g_A(p.G) == ev_nr(ev)
+//@   ensures @dead !g_live(G0) ==> !g_live(p.G) && g_taken(p.G)[action] == g_taken(G0)[action]
+//@   ensures @done g_done(p.G) == g_done(G0) && g_rval(p.G) == g_rval(G0)
+//@   ensures @fresh fresh(p) && p.nextLabel >= N0 && nonnil(p.labels)
+//@   ensures @ok {C05} p.R == old(p.R) && (ok(old(p)) ==> ok(p))
+//@   let R0 = p.R
+//@   let ok0 = ok(p)
+//@   use anyListZero(s) at before loop 1
+//@   use semInstList(s, k, conditions) at loop 1 body
+//@   use allHoldZero(conditions) at before loop 2
+//@   use argsInst(s, k, conditions, i, c) at loop 2 body
+//@   use semInst(s, k, conditions, i, c) at loop 2 body
+//@   use allHoldStep(conditions, i, c) at loop 2 end
+//@   use anyListStep(s, k, conditions, i) at after loop 2
+//@   loop 1 binder k
+//@     invariant @struct p != nil && nonnil(p.labels) && p.nextLabel >= N0 + 2 && nextSyscall == N0 + 1
+//@     invariant @ok {C05} p.R == R0 && (ok0 ==> ok(p))
+//@     invariant @fresh fresh(p)
+//@     invariant @done g_done(p.G) == g_done(G0) && g_rval(p.G) == g_rval(G0)
+//@     invariant @sem {C03} pre && sem ==> (g_taken(p.G)[action] == (g_taken(G0)[action] || (hdr && anyList(s, k))) && g_taken(p.G)[nextSyscall] == !hdr && g_live(p.G) == (hdr && !anyList(s, k)))
+//@     invariant @dead !g_live(G0) ==> !g_live(p.G) && g_taken(p.G)[action] == g_taken(G0)[action] && !g_taken(p.G)[nextSyscall]
+//@     invariant @next_A {C03} pre && g_taken(p.G)[nextSyscall] ==> g_tA(p.G)[nextSyscall] == ev_nr(ev)
+//@   loop 2 binder i
+//@     invariant @struct p != nil && nonnil(p.labels) && p.nextLabel >= noMatch && noMatch >= N0 + 3
+//@     invariant @ok {C05} p.R == R0 && (ok0 ==> ok(p))
+//@     invariant @fresh fresh(p)
+//@     invariant @done g_done(p.G) == g_done(G0) && g_rval(p.G) == g_rval(G0)
+//@     invariant @live {C02 C03} pre && sem ==> g_live(p.G) == (hdr && !anyList(s, k) && allHoldUpTo(conditions, i) && i < len(conditions))
+//@     invariant @nomatch {C02 C03} pre && sem ==> g_taken(p.G)[noMatch] == (hdr && !anyList(s, k) && !allHoldUpTo(conditions, i))
+//@     invariant @action {C02 C03} pre && sem ==> g_taken(p.G)[action] == (g_taken(G0)[action] || (hdr && anyList(s, k)) || (hdr && !anyList(s, k) && i == len(conditions) && allHoldUpTo(conditions, i)))
+//@     invariant @next pre && sem ==> g_taken(p.G)[nextSyscall] == !hdr
+//@     invariant @next_A {C03} pre && g_taken(p.G)[nextSyscall] ==> g_tA(p.G)[nextSyscall] == ev_nr(ev)
+//@     invariant @dead !g_live(G0) ==> !g_live(p.G) && g_taken(p.G)[action] == g_taken(G0)[action] && !g_taken(p.G)[nextSyscall] && !g_taken(p.G)[noMatch]
+
+// ---- names -> numbers, validation (C01 C03 C07) ----
+
+//@ func (o Operation) isValid() bool   properties C07
+//@   ensures @known result == knownOp(o)
+//@   loop 1 binder k
+//@     invariant @none forall(j, 0, k, Operations[j] != o)
+//@     invariant @len len(Operations) == 8 && Operations[0] == "Equal" && Operations[1] == "NotEqual" && Operations[2] == "GreaterThan" && Operations[3] == "LessThan" && Operations[4] == "GreaterOrEqual" && Operations[5] == "LessOrEqual" && Operations[6] == "BitsSet" && Operations[7] == "BitsNotSet"
+
+//@ macro condOK(c) = (c.Argument <= 5 && knownOp(c.Operation))
+//@ macro num32(g, name) = uint32(g.arch.SyscallNames[name] | g.arch.SeccompMask)
+//@ macro known(g, name) = has(g.arch.SyscallNames, name)
+//@ macro entryMatchesE(x) = (ev_nr(ev) == x.Num && (len(x.Conditions) == 0 || anyList(x, len(x.Conditions))))
+//@ macro anyEntry(sc, n) = exists(e_, 0, n, entryMatchesE(sc[e_]))
+//@ macro namesMatchUpTo(g, k) = exists(i_, 0, k, known(g, g.Names[i_]) && num32(g, g.Names[i_]) == ev_nr(ev))
+//@ macro nwcMatchUpTo(g, k) = exists(i_, 0, k, known(g, g.NamesWithCondtions[i_].Name) && num32(g, g.NamesWithCondtions[i_].Name) == ev_nr(ev) && allHoldUpTo(g.NamesWithCondtions[i_].Conditions, len(g.NamesWithCondtions[i_].Conditions)))
+//@ macro groupMatches(g) = (namesMatchUpTo(g, len(g.Names)) || nwcMatchUpTo(g, len(g.NamesWithCondtions)))
+// what C03/C07 assume of a group: every conditional entry carries at least one condition
+//@ macro groupListsNonEmpty(g) = forall(i_, 0, len(g.NamesWithCondtions), len(g.NamesWithCondtions[i_].Conditions) >= 1)
+//@ macro entriesValid(sc, n) = forall(e_, 0, n, argsValid(sc[e_]) && forall(a_, 0, len(sc[e_].Conditions), forall(b_, 0, len(sc[e_].Conditions[a_]), knownOp(sc[e_].Conditions[a_][b_].Operation))))
+//@ macro entriesNonEmptyLists(sc, n) = forall(e_, 0, n, forall(a_, 0, len(sc[e_].Conditions), len(sc[e_].Conditions[a_]) >= 1))
+
+// Validate (after the fix: argument index and operation are both checked)
+//@ func (a ArgumentConditions) Validate() []string   properties C05 C07
+//@   ensures @len_iff {C07} (len(result) == 0) == forall(i, 0, len(a), condOK(a[i]))
+//@   ensures @fresh own(result)
+//@   loop 1 binder k
+//@     invariant @problems_iff (len(problems) == 0) == forall(i, 0, k, condOK(a[i]))
+//@     invariant @own own(problems)
+
+//@ lemma anyEntryZero(sc []SyscallWithConditions)
+//@   ensures !anyEntry(sc, 0)
+//@ lemma anyEntryAppend(sc []SyscallWithConditions, sc2 []SyscallWithConditions, x SyscallWithConditions)
+//@   ensures len(sc2) == len(sc) + 1 && forall(j, 0, len(sc), sc2[j] == sc[j]) && sc2[len(sc)] == x && len(sc) >= 0 ==> anyEntry(sc2, len(sc2)) == (anyEntry(sc, len(sc)) || entryMatchesE(x))
+//@ lemma anyListSingle(x SyscallWithConditions, conds []Condition)
+//@   ensures len(x.Conditions) == 1 && x.Conditions[0] == conds ==> anyList(x, len(x.Conditions)) == allHoldUpTo(conds, len(conds))
+//@ lemma anyEntryMerge(sc []SyscallWithConditions, sc2 []SyscallWithConditions, idx int, conds []Condition)
+//@   ensures 0 <= idx && idx < len(sc) && len(sc2) == len(sc) && forall(j, 0, len(sc), j != idx ==> sc2[j] == sc[j]) && sc2[idx].Num == sc[idx].Num && len(sc[idx].Conditions) >= 1 && len(sc2[idx].Conditions) == len(sc[idx].Conditions) + 1 && forall(j, 0, len(sc[idx].Conditions), sc2[idx].Conditions[j] == sc[idx].Conditions[j]) && sc2[idx].Conditions[len(sc[idx].Conditions)] == conds ==> anyEntry(sc2, len(sc2)) == (anyEntry(sc, len(sc)) || (ev_nr(ev) == sc[idx].Num && allHoldUpTo(conds, len(conds))))
+//@ lemma namesStep(g *SyscallGroup, k int, name string)
+//@   requires g != nil && 0 <= k && k < len(g.Names) && name == g.Names[k]
+//@   ensures namesMatchUpTo(g, k+1) == (namesMatchUpTo(g, k) || (known(g, name) && num32(g, name) == ev_nr(ev)))
+//@ lemma namesZero(g *SyscallGroup)
+//@   requires g != nil
+//@   ensures !namesMatchUpTo(g, 0) && !nwcMatchUpTo(g, 0)
+//@ lemma nwcStep(g *SyscallGroup, k int, nc NameWithConditions)
+//@   requires g != nil && 0 <= k && k < len(g.NamesWithCondtions) && nc == g.NamesWithCondtions[k]
+//@   ensures nwcMatchUpTo(g, k+1) == (nwcMatchUpTo(g, k) || (known(g, nc.Name) && num32(g, nc.Name) == ev_nr(ev) && allHoldUpTo(nc.Conditions, len(nc.Conditions))))
+
+//@ macro namesKnownUpTo(g, k) = forall(i_, 0, k, known(g, g.Names[i_]))
+//@ macro namesDistinctUpTo(g, k) = forall(i_, 0, k, forall(h_, 0, i_, g.Names[h_] != g.Names[i_]))
+//@ macro namesReprUpTo(g, sc, k) = forall(i_, 0, k, exists(e_, 0, len(sc), sc[e_].Num == num32(g, g.Names[i_]) && len(sc[e_].Conditions) == 0))
+//@ macro numsDistinct(sc) = forall(e_, 0, len(sc), forall(f_, 0, e_, sc[f_].Num != sc[e_].Num))
+//@ macro nwcOKUpTo(g, k) = forall(i_, 0, k, known(g, g.NamesWithCondtions[i_].Name) && forall(b_, 0, len(g.NamesWithCondtions[i_].Conditions), condOK(g.NamesWithCondtions[i_].Conditions[b_])) && forall(h_, 0, len(g.Names), g.Names[h_] != g.NamesWithCondtions[i_].Name))
+//@ macro listOK(l) = forall(b_, 0, len(l), condOK(l[b_]))
+//@ macro entryOK(x) = forall(a_, 0, len(x.Conditions), listOK(x.Conditions[a_]))
+//@ macro entriesOK(sc) = forall(e_, 0, len(sc), entryOK(sc[e_]))
+//@ macro entryListsNonEmpty(x) = forall(a_, 0, len(x.Conditions), len(x.Conditions[a_]) >= 1)
+//@ macro entriesListsNonEmpty(sc) = forall(e_, 0, len(sc), entryListsNonEmpty(sc[e_]))
+//@ macro nwcNonEmptyUpTo(g, k) = forall(i_, 0, k, len(g.NamesWithCondtions[i_].Conditions) >= 1)
+
+//@ func (g *SyscallGroup) toSyscallsWithConditions() ([]SyscallWithConditions, error)   properties C01 C03 C05 C07
+//@   requires g != nil && g.arch != nil
+//@   ensures @err_nil_result {C07} result1 != nil ==> len(result0) == 0
+//@   ensures @semantics {C01 C03} result1 == nil ==> anyEntry(result0, len(result0)) == groupMatches(g)
+//@   ensures @fresh own(result0)
+//@   ensures @c07_names {C07} result1 == nil ==> namesKnownUpTo(g, len(g.Names))
+//@   ensures @c07_dups {C07} result1 == nil ==> namesDistinctUpTo(g, len(g.Names))
+//@   ensures @c07_nwc {C07} result1 == nil ==> nwcOKUpTo(g, len(g.NamesWithCondtions))
+//@   ensures @entries_ok {C05 C07} result1 == nil ==> entriesOK(result0)
+//@   ensures @lists_nonempty {C03} result1 == nil && nwcNonEmptyUpTo(g, len(g.NamesWithCondtions)) ==> entriesListsNonEmpty(result0)
+//@   use namesZero(g) at entry
+//@   use anyEntryZero(syscalls) at before loop 1
+//@   use namesStep(g, k1, name) at loop 1 body
+//@   use nwcStep(g, k2, nc) at loop 2 body
+//@   ghost let sc0 = syscalls at loop 2 body
+//@   use anyEntryAppend(sc0, syscalls, syscalls[len(sc0)]) at loop 2 end
+//@   use anyListSingle(syscalls[len(sc0)], nc.Conditions) at loop 2 end
+//@   use anyEntryMerge(sc0, syscalls, idx(check), nc.Conditions) at loop 2 end
+//@   loop 1 binder k1
+//@     invariant @own own(syscalls) && own(problems) && forall(j, 0, len(syscalls), own(syscalls[j].Conditions))
+//@     invariant @uncond forall(j, 0, len(syscalls), len(syscalls[j].Conditions) == 0)
+//@     invariant @sem {C01 C03} len(problems) == 0 ==> anyEntry(syscalls, len(syscalls)) == namesMatchUpTo(g, k1)
+//@     invariant @known {C07} len(problems) == 0 ==> namesKnownUpTo(g, k1)
+//@     invariant @repr {C07} len(problems) == 0 ==> namesReprUpTo(g, syscalls, k1)
+//@     invariant @dups {C07} len(problems) == 0 ==> namesDistinctUpTo(g, k1)
+//@     invariant @nums {C07} numsDistinct(syscalls)
+//@   loop 2 binder k2
+//@     invariant @own own(syscalls) && own(problems) && forall(j, 0, len(syscalls), own(syscalls[j].Conditions))
+//@     invariant @sem {C01 C03} len(problems) == 0 ==> anyEntry(syscalls, len(syscalls)) == (namesMatchUpTo(g, len(g.Names)) || nwcMatchUpTo(g, k2))
+//@     invariant @names {C07} len(problems) == 0 ==> namesKnownUpTo(g, len(g.Names)) && namesDistinctUpTo(g, len(g.Names))
+//@     invariant @repr {C07} len(problems) == 0 ==> namesReprUpTo(g, syscalls, len(g.Names))
+//@     invariant @nums {C07} numsDistinct(syscalls)
+//@     invariant @nwc {C07} len(problems) == 0 ==> nwcOKUpTo(g, k2)
+//@     invariant @entries_ok {C05 C07} entriesOK(syscalls)
+//@     invariant @lists_nonempty {C03} nwcNonEmptyUpTo(g, k2) ==> entriesListsNonEmpty(syscalls)
+
+// ---- group and policy assembly (C01 C03 C04 C05 C07) ----
+
+// Contract of label resolution (property C06). Body verified separately (layer A); C01-C05/C07 only use this contract.
+// A0 is the arbitrary accumulator with which the block is entered: p.G must have been started as Ginit(A0).
+//@ func (p *Program) Assemble() ([]bpf.Instruction, error)   properties C06
+//@   trusted
+//@   requires p != nil
+//@   modifies p
+//@   ensures @err result1 != nil ==> len(result0) == 0
+//@   ensures @sem result1 == nil ==> run(result0, 0, A0) == outG(old(p.G))
+//@   ensures @closed result1 == nil && ok(old(p)) ==> closed(result0) && retsInSet(result0, old(p.R))
+//@   ensures @len result1 == nil ==> len(result0) >= len(old(p.instructions)) && own(result0)
+
+// MT-3 (meta-theory, DESIGN.md 3.3): a closed block embedded in a program behaves like the block run on its own,
+// then continues behind it. Proved by induction on the execution (not by the SMT solver): trusted.
+//@ lemma MT3(prog []bpf.Instruction, s int, B []bpf.Instruction, A uint32)
+//@   trusted
+//@   ensures subBlock(prog, s, B) && closed(B) ==> run(prog, s, A) == thenRun(run(B, 0, A), prog, s + len(B))
+
+// the macro form used inside toSyscallsWithConditions and the named form used at group/policy level agree
+//@ lemma groupMatchesLink(g *SyscallGroup)
+//@   requires g != nil && g.arch != nil
+//@   ensures groupMatches(g) == groupMatchesF(*g.arch, *g)
+//@ lemma listsNonEmptyLink(g *SyscallGroup)
+//@   requires g != nil
+//@   ensures nwcNonEmptyUpTo(g, len(g.NamesWithCondtions)) == groupListsNonEmpty(*g)
+//@ lemma anyEntryStep(sc []SyscallWithConditions, k int, x SyscallWithConditions)
+//@   ensures 0 <= k && k < len(sc) && x == sc[k] ==> anyEntry(sc, k+1) == (anyEntry(sc, k) || (ev_nr(ev) == x.Num && (len(x.Conditions) == 0 || anyList(x, len(x.Conditions)))))
+//@ lemma entryValidInst(sc []SyscallWithConditions, k int, x SyscallWithConditions)
+//@   ensures 0 <= k && k < len(sc) && x == sc[k] && entriesOK(sc) ==> argsValid(x) && (entriesListsNonEmpty(sc) ==> semValid(x))
+//@ func (g *SyscallGroup) Assemble(defaultAction Action) ([]bpf.Instruction, error)   properties C01 C05 C07
+//@   requires g != nil && g.arch != nil
+//@   ensures @err {C07} result1 != nil ==> len(result0) == 0
+//@   ensures @sem {C01} result1 == nil && !(len(g.Names) == 0 && len(g.NamesWithCondtions) == 0) && groupListsNonEmpty(*g) && A0 == ev_nr(ev) ==> run(result0, 0, A0) == ite(groupMatchesF(*g.arch, *g), Ret(enc(g.Action)), Ret(enc(defaultAction)))
+//@   ensures @closed {C05} result1 == nil ==> closed(result0)
+
+//@ func (g *SyscallGroup) assemble(defaultAction Action, fallThrough bool) ([]bpf.Instruction, error)   properties C01 C03 C04 C05 C07
+//@   requires g != nil && g.arch != nil
+//@   let empty = len(g.Names) == 0 && len(g.NamesWithCondtions) == 0
+//@   ensures @empty empty ==> len(result0) == 0 && result1 == nil
+//@   ensures @err {C07} result1 != nil ==> len(result0) == 0
+//@   ensures @sem {C01 C03} result1 == nil && !empty && groupListsNonEmpty(*g) && A0 == ev_nr(ev) ==> run(result0, 0, A0) == ite(groupMatchesF(*g.arch, *g), Ret(enc(g.Action)), ite(fallThrough, Fall(ev_nr(ev)), Ret(enc(defaultAction))))
+//@   ensures @closed {C05} result1 == nil ==> closed(result0) && own(result0)
+//@   ensures @rets {C05} result1 == nil ==> retsInSet(result0, addRet(addRet(emptyRets, enc(g.Action)), ite(fallThrough, enc(g.Action), enc(defaultAction))))
+//@   ensures @c07_names {C07} result1 == nil && !empty ==> groupValidF(*g.arch, *g)
+//@   use groupValidLink(g) at entry
+//@   ghost p.G = Ginit(A0) at before call Program.NewLabel#1
+//@   ghost p.R = emptyRets at before call Program.NewLabel#1
+//@   use groupMatchesLink(g) at entry
+//@   use listsNonEmptyLink(g) at entry
+//@   use anyEntryZero(syscalls) at before loop 1
+//@   use entryValidInst(syscalls, k, syscall) at loop 1 body
+//@   use anyEntryStep(syscalls, k, syscall) at loop 1 body
+//@   loop 1 binder k
+//@     invariant @struct nonnil(p.labels) && action == 2 && p.nextLabel >= 2 && fresh(p) && !g_done(p.G)
+//@     invariant @ok {C05} p.R == emptyRets && ok(p)
+//@     invariant @sem {C01 C03} A0 == ev_nr(ev) && entriesListsNonEmpty(syscalls) ==> g_live(p.G) == !anyEntry(syscalls, k) && (g_live(p.G) ==> g_A(p.G) == ev_nr(ev)) && g_taken(p.G)[action] == anyEntry(syscalls, k)
+
+//@ lemma groupValidLink(g *SyscallGroup)
+//@   requires g != nil && g.arch != nil
+//@   ensures (namesKnownUpTo(g, len(g.Names)) && namesDistinctUpTo(g, len(g.Names)) && nwcOKUpTo(g, len(g.NamesWithCondtions))) == groupValidF(*g.arch, *g)
+
+//@ func (p *Policy) Validate() error   properties C07
+//@   requires p != nil
+//@   ensures @iff {C07} (result == nil) == (knownAction(p.DefaultAction) && len(p.Syscalls) > 0)
+
+// concatenation facts (instances of the quantified definition of append(a, b...))
+//@ macro isCat(R, P, Q) = (iscat(R, P, Q) && len(P) >= 0 && len(Q) >= 0)
+//@ lemma catSubBlocks(R []bpf.Instruction, P []bpf.Instruction, Q []bpf.Instruction)
+//@   ensures isCat(R, P, Q) ==> subBlock(R, 0, P) && subBlock(R, len(P), Q)
+//@ lemma catClosed(R []bpf.Instruction, P []bpf.Instruction, Q []bpf.Instruction)
+//@   ensures isCat(R, P, Q) && closed(P) && closed(Q) ==> closed(R)
+//@ lemma catRetsAct(R []bpf.Instruction, P []bpf.Instruction, Q []bpf.Instruction, gs []SyscallGroup, k int, a uint32)
+//@   ensures isCat(R, P, Q) && retsActUpTo(P, gs, k) && retsInSet(Q, addRet(addRet(emptyRets, a), a)) && a == enc(gs[k].Action) && k >= 0 ==> retsActUpTo(R, gs, k+1)
+//@ lemma catRetsActEmpty(P []bpf.Instruction, gs []SyscallGroup, k int)
+//@   ensures retsActUpTo(P, gs, k) && k >= 0 ==> retsActUpTo(P, gs, k+1)
+//@ lemma polRelStep(ai arch.Info, gs []SyscallGroup, k int, o Outcome, o2 Outcome)
+//@   opaque groupMatchesN
+//@   ensures 0 <= k && k < len(gs) && polRel(ai, gs, k, o) && o2 == ite(is_Ret(o), o, ite(groupMatchesF(ai, gs[k]), Ret(enc(gs[k].Action)), Fall(ev_nr(ev)))) ==> polRel(ai, gs, k+1, o2)
+//@ lemma polRelNoMatch(ai arch.Info, gs []SyscallGroup, k int, o Outcome)
+//@   opaque groupMatchesN
+//@   ensures 0 <= k && k < len(gs) && polRel(ai, gs, k, o) && !groupMatchesF(ai, gs[k]) ==> polRel(ai, gs, k+1, o)
+//@ lemma emptyNoMatch(ai arch.Info, g SyscallGroup)
+//@   ensures len(g.Names) == 0 && len(g.NamesWithCondtions) == 0 ==> !groupMatchesF(ai, g)
+//@ lemma polRelZero(ai arch.Info, gs []SyscallGroup)
+//@   ensures polRel(ai, gs, 0, Fall(ev_nr(ev)))
+//@ lemma listsNonEmptyInst(gs []SyscallGroup, k int)
+//@   ensures policyListsNonEmpty(gs) && 0 <= k && k < len(gs) ==> groupListsNonEmpty(gs[k])
+
+//@ lemma emptyValid(ai arch.Info, g SyscallGroup)
+//@   ensures len(g.Names) == 0 && len(g.NamesWithCondtions) == 0 ==> groupValidF(ai, g)
+//@ lemma polRelShape(ai arch.Info, gs []SyscallGroup, k int, o Outcome)
+//@   opaque groupMatchesN
+//@   ensures polRel(ai, gs, k, o) ==> is_Ret(o) || o == Fall(ev_nr(ev))
+//@ lemma polRelFinal(ai arch.Info, dflt uint32, gs []SyscallGroup, o Outcome, o2 Outcome)
+//@   opaque groupMatchesN
+//@   ensures polRel(ai, gs, len(gs), o) && o2 == ite(is_Ret(o), o, Ret(enc(dflt))) ==> polDone(ai, dflt, gs, o2)
+
+// one unfolding of the interpreter (S-std) at an explicit position: in the functions that use it, `run` itself is opaque,
+// so every step of the prologue is an explicit instance
+//@ lemma runStep(prog []bpf.Instruction, pc int, A uint32)
+//@   ensures 0 <= pc && pc < len(prog) && isRet(prog[pc]) ==> run(prog, pc, A) == Ret(unbox(prog[pc], bpf.RetConstant).Val)
+//@   ensures 0 <= pc && pc < len(prog) && istype(prog[pc], bpf.LoadAbsolute) ==> run(prog, pc, A) == run(prog, pc + 1, word(ev, unbox(prog[pc], bpf.LoadAbsolute).Off))
+//@   ensures 0 <= pc && pc < len(prog) && istype(prog[pc], bpf.JumpIf) ==> run(prog, pc, A) == run(prog, pc + 1 + ite(jtest(unbox(prog[pc], bpf.JumpIf).Cond, A, unbox(prog[pc], bpf.JumpIf).Val), unbox(prog[pc], bpf.JumpIf).SkipTrue, unbox(prog[pc], bpf.JumpIf).SkipFalse), A)
+//@   ensures 0 <= pc && pc < len(prog) && istype(prog[pc], bpf.Jump) ==> run(prog, pc, A) == run(prog, pc + 1 + w2i(unbox(prog[pc], bpf.Jump).Skip), A)
+//@   ensures pc == len(prog) && pc >= 0 ==> run(prog, pc, A) == Fall(A)
+//@ lemma emptyBlock(P []bpf.Instruction, gs []SyscallGroup)
+//@   ensures len(P) == 0 ==> closed(P) && retsActUpTo(P, gs, 0)
+//@ lemma singleRet(Q []bpf.Instruction)
+//@   ensures len(Q) == 1 && isRet(Q[0]) ==> strictClosed(Q) && closed(Q)
+//@ lemma strictImpliesOK(R []bpf.Instruction, j int)
+//@   ensures insnStrictOK(R, j) ==> insnOK(R, j)
+
+//@ func (p *Policy) Assemble() ([]bpf.Instruction, error)   properties C01 C03 C04 C05 C07 C13
+//@   opaque groupValidN polDone polRel groupMatchesN closed strictClosed subBlock retsActUpTo run
+//@   requires p != nil
+//@   requires @api_groups forall(i, 0, len(p.Syscalls), p.Syscalls[i].arch == nil)
+//@   modifies p
+//@   ghost assume A0 == ev_nr(ev) at entry
+//@   let gs = p.Syscalls
+//@   let dflt = p.DefaultAction
+//@   let nr = ev_nr(ev)
+//@   ensures @err {C07} result1 != nil ==> len(result0) == 0
+//@   ensures @frame {C13} p.Syscalls == old(p.Syscalls) && p.DefaultAction == old(p.DefaultAction) && (old(p.arch) != nil ==> p.arch == old(p.arch))
+//@   ensures @decision {C01 C03 C04} result1 == nil && policyListsNonEmpty(gs) && len(result0) < 4294967296 ==> decisionRel(*p.arch, dflt, gs, run(result0, 0, Astart))
+//@   ensures @c07_action {C07} result1 == nil ==> knownAction(dflt) && len(gs) > 0 && p.arch != nil
+//@   ensures @c07_groups {C07} result1 == nil ==> forall(i, 0, len(gs), groupValidF(*p.arch, gs[i]))
+//@   ensures @closed {C05} result1 == nil ==> closed(result0) && len(result0) >= 4
+//@   ensures @kernel {C05} result1 == nil && len(result0) <= 4096 ==> kernelAccepts(result0)
+//@   use emptyBlock(instructions, gs) at before loop 1
+//@   use polRelZero(*p.arch, gs) at before loop 1
+//@   use runStep(instructions, 0, nr) at before loop 1
+//@   ghost let ins0 = instructions at loop 1 body
+//@   use listsNonEmptyInst(gs, k) at loop 1 body
+//@   use emptyNoMatch(*p.arch, gs[k]) at loop 1 body
+//@   use emptyValid(*p.arch, gs[k]) at loop 1 body
+//@   use catSubBlocks(instructions, ins0, groupInsts) at loop 1 end
+//@   use catClosed(instructions, ins0, groupInsts) at loop 1 end
+//@   use catRetsAct(instructions, ins0, groupInsts, gs, k, enc(group.Action)) at loop 1 end
+//@   use catRetsActEmpty(ins0, gs, k) at loop 1 end
+//@   use MT3(instructions, 0, ins0, nr) at loop 1 end
+//@   use MT3(instructions, len(ins0), groupInsts, nr) at loop 1 end
+//@   use runStep(instructions, len(instructions), fall_A(run(groupInsts, 0, nr))) at loop 1 end
+//@   use runStep(groupInsts, 0, nr) at loop 1 end
+//@   use polRelStep(*p.arch, gs, k, run(ins0, 0, nr), run(instructions, 0, nr)) at loop 1 end
+//@   use polRelNoMatch(*p.arch, gs, k, run(ins0, 0, nr)) at loop 1 end
+//@   use polRelShape(*p.arch, gs, k, run(ins0, 0, nr)) at loop 1 end
+//@   ghost let ins1 = instructions at after loop 1
+//@   ghost let prog6 = program at after assign program#6
+//@   ghost let prog7 = program at after assign program#7
+//@   use singleRet(end.instructions) at exit
+//@   use catSubBlocks(instructions, ins1, end.instructions) at exit
+//@   use catClosed(instructions, ins1, end.instructions) at exit
+//@   use catStrict(instructions, ins1, end.instructions) at exit
+//@   use MT3(instructions, 0, ins1, nr) at exit
+//@   use runStep(instructions, len(ins1), fall_A(run(ins1, 0, nr))) at exit
+//@   use polRelFinal(*p.arch, dflt, gs, run(ins1, 0, nr), run(instructions, 0, nr)) at exit
+//@   use polRelShape(*p.arch, gs, len(gs), run(ins1, 0, nr)) at exit
+//@   use catSubBlocks(program, prog7, instructions) at exit
+//@   use MT3(program, len(prog7), instructions, nr) at exit
+//@   use catClosedPrefix(program, prog7, instructions) at exit
+//@   use catStrictPrefix(program, prog7, instructions) at exit
+//@   use runStep(program, 0, Astart) at exit
+//@   use runStep(program, 1, ev_arch(ev)) at exit
+//@   use runStep(program, 2, ev_arch(ev)) at exit
+//@   use runStep(program, 3, ev_arch(ev)) at exit
+//@   use runStep(program, len(prog6), nr) at exit
+//@   use runStep(program, len(prog6) + 1, nr) at exit
+//@   use runStep(program, len(program) - 1, ev_arch(ev)) at exit
+//@   use strictImpliesOK(program, 0) at exit
+//@   use strictImpliesOK(program, 1) at exit
+//@   use strictImpliesOK(program, 2) at exit
+//@   use strictImpliesOK(program, 3) at exit
+//@   use strictImpliesOK(program, 4) at exit
+//@   use strictImpliesOK(program, 5) at exit
+//@   hint @end_ret result1 == nil ==> len(end.instructions) == 1 && isRetOf(end.instructions[0], enc(dflt)) at exit
+//@   hint @tail_ret result1 == nil ==> len(instructions) == len(ins1) + 1 && isRetOf(instructions[len(ins1)], enc(dflt)) at exit
+//@   hint @block_run {C01 C03} result1 == nil && policyListsNonEmpty(gs) ==> polDone(*p.arch, dflt, gs, run(instructions, 0, nr)) at exit
+//@   hint @last_ret {C04} result1 == nil ==> len(program) == len(prog7) + len(instructions) && isRetOf(program[len(program) - 1], enc(dflt)) at exit
+//@   hint @lens result1 == nil ==> len(prog7) == len(prog6) + len(x32Filter) && len(prog6) == ite(jumpN <= 255, 3, 4) && len(x32Filter) == ite(p.arch.ID == 3221225534, 2, 0) && jumpN == len(x32Filter) + len(instructions) at exit
+//@   hint @i0 result1 == nil ==> program[0] == prog6[0] && program[1] == prog6[1] && program[2] == prog6[2] && (jumpN > 255 ==> program[3] == prog6[3]) at exit
+//@   hint @ix result1 == nil && p.arch.ID == 3221225534 ==> program[len(prog6)] == x32Filter[0] && program[len(prog6) + 1] == x32Filter[1] at exit
+//@   hint @block_at result1 == nil ==> run(program, len(prog7), nr) == run(instructions, 0, nr) || !is_Ret(run(instructions, 0, nr)) at exit
+//@   hint @tgt {C04} result1 == nil ==> run(program, len(program) - 1, ev_arch(ev)) == Ret(enc(dflt)) at exit
+//@   hint @j1_short {C04} result1 == nil && jumpN <= 255 ==> istype(program[1], bpf.JumpIf) && unbox(program[1], bpf.JumpIf).Cond == 1 && unbox(program[1], bpf.JumpIf).Val == p.arch.ID && unbox(program[1], bpf.JumpIf).SkipTrue == jumpN && unbox(program[1], bpf.JumpIf).SkipFalse == 0 && 2 + jumpN == len(program) - 1 at exit
+//@   hint @j1_long {C04} result1 == nil && jumpN > 255 ==> istype(program[1], bpf.JumpIf) && unbox(program[1], bpf.JumpIf).Cond == 0 && unbox(program[1], bpf.JumpIf).Val == p.arch.ID && unbox(program[1], bpf.JumpIf).SkipTrue == 1 && unbox(program[1], bpf.JumpIf).SkipFalse == 0 && istype(program[2], bpf.Jump) && (len(program) < 4294967296 ==> w2i(unbox(program[2], bpf.Jump).Skip) == jumpN) && 3 + jumpN == len(program) - 1 at exit
+//@   hint @s0 result1 == nil ==> run(program, 0, Astart) == run(program, 1, ev_arch(ev)) at exit
+//@   hint @s1_short {C04} result1 == nil && jumpN <= 255 ==> run(program, 1, ev_arch(ev)) == ite(ev_arch(ev) != p.arch.ID, Ret(enc(dflt)), run(program, 2, ev_arch(ev))) at exit
+//@   hint @s2_short result1 == nil && jumpN <= 255 ==> run(program, 2, ev_arch(ev)) == run(program, 3, nr) at exit
+//@   hint @s2_long {C04} result1 == nil && jumpN > 255 && len(program) < 4294967296 ==> run(program, 2, ev_arch(ev)) == Ret(enc(dflt)) at exit
+//@   hint @s1_long {C04} result1 == nil && jumpN > 255 && len(program) < 4294967296 ==> run(program, 1, ev_arch(ev)) == ite(ev_arch(ev) != p.arch.ID, Ret(enc(dflt)), run(program, 3, ev_arch(ev))) at exit
+//@   hint @s3_long result1 == nil && jumpN > 255 ==> run(program, 3, ev_arch(ev)) == run(program, 4, nr) at exit
+//@   hint @sx {C04} result1 == nil && p.arch.ID == 3221225534 ==> run(program, len(prog6), nr) == ite(nr >= 1073741824, Ret(327718), run(program, len(prog6) + 2, nr)) at exit
+//@   hint @k0 {C05} result1 == nil ==> insnStrictOK(program, 0) && insnStrictOK(program, 2) && (jumpN > 255 ==> insnStrictOK(program, 3)) at exit
+//@   hint @k1 {C05} result1 == nil && len(program) < 4294967296 ==> insnStrictOK(program, 1) && (jumpN > 255 ==> insnStrictOK(program, 2)) at exit
+//@   hint @kx {C05} result1 == nil && p.arch.ID == 3221225534 ==> insnStrictOK(program, len(prog6)) && insnStrictOK(program, len(prog6) + 1) at exit
+//@   loop 1 binder k
+//@     invariant @own own(instructions) && p.arch != nil
+//@     invariant @closed {C05} closed(instructions)
+//@     invariant @rets {C05} retsActUpTo(instructions, gs, k)
+//@     invariant @sem {C01 C03} policyListsNonEmpty(gs) ==> polRel(*p.arch, gs, k, run(instructions, 0, nr))
+//@     invariant @c07 {C07} forall(i, 0, k, groupValidF(*p.arch, gs[i]))
+
+//@ lemma catStrict(R []bpf.Instruction, P []bpf.Instruction, Q []bpf.Instruction)
+//@   ensures isCat(R, P, Q) && closed(P) && strictClosed(Q) && len(Q) >= 1 ==> strictClosed(R)
+//@ lemma catStrictPrefix(R []bpf.Instruction, P []bpf.Instruction, Q []bpf.Instruction)
+//@   ensures isCat(R, P, Q) && strictClosed(Q) && forall(j, 0, len(P), insnStrictOK(R, j)) ==> strictClosed(R)
+
+// a closed block behind an explicit prefix: jumps of the prefix are checked where the prefix is built
+//@ lemma catClosedPrefix(R []bpf.Instruction, P []bpf.Instruction, Q []bpf.Instruction)
+//@   ensures isCat(R, P, Q) && closed(Q) && forall(j, 0, len(P), insnOK(R, j)) ==> closed(R)
+
+// ---------------------------------------------------------------------------
+// Text forms (C13 C14)
+// ---------------------------------------------------------------------------
+
+//@ func (a Action) String() string   properties C13 C14
+//@   ensures @known has(actionNames, a) ==> result == actionNames[a]
+//@   ensures @unknown !has(actionNames, a) ==> result == "unknown"
+
+//@ func (a *Action) Unpack(s string) error   properties C13 C14
+//@   requires a != nil
+//@   modifies a
+//@   let ls = tolower(s)
+//@   ensures @known {C14} existsk(x, actionNames, has(actionNames, x) && actionNames[x] == ls) ==> result == nil && has(actionNames, *a) && actionNames[*a] == ls
+//@   ensures @unknown {C14} !existsk(x, actionNames, has(actionNames, x) && actionNames[x] == ls) ==> result != nil && *a == old(*a)
+//@   loop 1 binder vis
+//@     invariant @none forallk(x, actionNames, vis[x] ==> actionNames[x] != s)
+//@     invariant @frame a != nil && *a == old(*a)
+
+// what Unpack's postcondition yields for the printed form of a named action determines the action (names are pairwise distinct)
+//@ lemma actionRoundTrip(a Action, a2 Action)   properties C14
+//@   ensures has(actionNames, a) && has(actionNames, a2) && actionNames[a2] == tolower(actionNames[a]) ==> a2 == a
+//@ lemma actionNamesLower(a Action)   properties C14
+//@   ensures has(actionNames, a) ==> tolower(actionNames[a]) == actionNames[a]
+
+//@ func (o *Operation) Unpack(s string) error   properties C14
+//@   requires o != nil
+//@   modifies o
+//@   let ls = tolower(s)
+//@   ensures @known {C14} exists(j, 0, len(Operations), tolower(Operations[j]) == ls) ==> result == nil && tolower(*o) == ls && exists(j, 0, len(Operations), Operations[j] == *o)
+//@   ensures @unknown {C14} !exists(j, 0, len(Operations), tolower(Operations[j]) == ls) ==> result != nil && *o == old(*o)
+//@   loop 1 binder k
+//@     invariant @none forall(j, 0, k, tolower(Operations[j]) != s)
+//@     invariant @frame o != nil && *o == old(*o)
+
+//@ lemma operationRoundTrip(o Operation, o2 Operation)   properties C14
+//@   ensures knownOp(o) && knownOp(o2) && tolower(o2) == tolower(o) ==> o2 == o
